@@ -202,13 +202,25 @@ CLAIMS = {
         "malformed programs."),
   note=NOTE_COMMON + "Frozen table: c17_roles.json (seven syntactic tokens - each re-checked to be tested by some statement parser -, the error token, three tokens "
        "with two legitimate roles). If the evaluator is re-architected so that the `k == tok...` / mask patterns vanish the check exits 2."),
+ "C16": dict(
+  technique="model-number exhaustiveness over every switch on species::gflag + reader/writer agreement on the model parameter fields + exact rational-function comparison of the lg assignments with the defining equations",
+  text=("Only the ion-association clause of C16 ('each species' log activity coefficient equals the model the database assigns to it') has parts "
+        "visible in code shape, and only those are decided: (a) every model number assigned to species::gflag anywhere has a case in every switch "
+        "over gflag (gammas, gammas_pz, gammas_sit); (b) every case of Phreeqc::gammas assigns species::lg on every path that does not end in a STOP "
+        "error; (c) the parameter fields (dha, dhb) a model reads are fields stored by the code that selects that model (-gamma a b, -llnl_gamma a, "
+        "the charged/uncharged defaults); (d) the right-hand side of the lg assignment of the closed-form models - uncharged b*I, Davies, "
+        "extended/WATEQ Debye-Hueckel, LLNL B-dot, 'always 1', and the exchange-species variants coef*(same equation) + convention term - equals the "
+        "defining equation as an exact rational function of (A, B, z, sqrt(I), a0, b, bdot) after I = sqrt(I)^2; algebraically equivalent rewrites "
+        "compare equal (benign mutant kept), a changed coefficient, sign or operand does not. NOT decided: the values of A, B and I at which the "
+        "equations are evaluated, exchange/surface conventions, and the whole Pitzer/SIT/Gibbs-Duhem/water-activity clause (numerical)."),
+  note=NOTE_COMMON + "The reference equations are the textbook definitions named in the property (Davies with 0.3 I; Debye-Hueckel with ion-size and b "
+       "terms; B-dot); the comparison is by polynomial identity (engine/ratfun.py), not by text. A partial claim labelled `other`."),
 }
 
 NOT_APPLICABLE = {
  "C01": "quantifies over the numerical solution of the speciation equations for every composition/database; no clause is visible in code shape, and re-evaluating the database equations would be a computation, not a static analysis",
  "C03": "equilibrium end-state (SI = target, phase present/absent, site and mole-fraction sums) is the fixed point of an inequality-constrained Newton iteration; only its numeric outcome can be judged",
  "C15": "metamorphic equalities between pairs of runs; the unit-conversion routine could only be judged by evaluating it for each unit string, i.e. by executing it (symbolically), which this technique family excludes",
- "C16": "activity-coefficient formulae and Gibbs-Duhem consistency are identities between computed reals; checking literal constants against a reference text would be a frozen-fragment proxy",
  "C18": "admissibility of each reported inverse model depends on the L1 solver's numeric output for each problem",
  "C19": "equation-of-state and fugacity relations are numerical identities over the P-T range",
  "C20": "surface mass-action and charge-potential relations are numerical identities over all surfaces",
